@@ -43,7 +43,7 @@ func registerFamily(id string, mk func() *clustermc.Family) {
 			return 2
 		}
 		for _, d := range tr.Res.Decisions {
-			fmt.Println("  decision:", d)
+			fmt.Println("  decision:", d, "[action "+d.AfterAction+"]")
 		}
 		found := false
 		for _, o := range fam.Oracles {
@@ -75,6 +75,7 @@ func init() {
 	registerFamily("C14", C14)
 	registerFamily("C07", C07)
 	registerFamily("C05", C05)
+	registerFamily("C04", C04)
 }
 
 var _ = engine.VerifDir
